@@ -150,3 +150,697 @@ def table_closed(db, chk, cfg, rule="T.closed"):
                       "closed-path contribution table deviates from the set-algebra definition on %d reachable cell(s); first: %s"
                       % (len(bad), cell), f.where, detail=bad[:20], cfg=cfg)
     return ncell
+
+
+# ---------------------------------------------------------------------------
+# open paths (C05)
+# ---------------------------------------------------------------------------
+
+def oracle_open(fill, ct, wc, wc2):
+    in_subj = filled(fill, wc)
+    in_clip = filled(fill, wc2)
+    if ct == "Intersection":
+        return in_clip
+    if ct == "Union":
+        return (not in_subj) and (not in_clip)
+    return not in_clip          # Difference, Xor: the part outside the clip region
+
+
+def reachable_open(fill, wc, wc2):
+    if fill == "EvenOdd":
+        return wc in (0, 1) and wc2 in (0, 1)
+    return True
+
+
+def table_open(db, chk, cfg, rule="T.open"):
+    f = db.one("ClipperBase::IsContributingOpen")
+    n = 0
+    bad = []
+    for fill in FILL:
+        for ct in CLIP[1:]:
+            for wc in REPS:
+                for wc2 in REPS:
+                    log = []
+                    env = {"fillrule_": enum_index(db, "FillRule", fill), "cliptype_": enum_index(db, "ClipType", ct),
+                           "e.wind_cnt": SymVal(wc, "wind_cnt", log), "e.wind_cnt2": SymVal(wc2, "wind_cnt2", log)}
+                    got = Interp(db, env, log).run_function(f)
+                    check_uniform(log, {"wind_cnt": BOUNDS, "wind_cnt2": BOUNDS})
+                    if not reachable_open(fill, wc, wc2):
+                        continue
+                    n += 1
+                    want = oracle_open(fill, ct, wc, wc2)
+                    cell = {"fill": fill, "clip": ct, "wind_cnt": wc, "wind_cnt2": wc2, "code": got, "oracle": want}
+                    chk.instance(rule, cell if n % 61 == 1 else None, ok=(got == want))
+                    if got != want:
+                        bad.append(cell)
+    for cell in bad[:1]:
+        chk.violation(rule, f.qual, "%s/%s/wc=%d/wc2=%d" % (cell["clip"], cell["fill"], cell["wind_cnt"], cell["wind_cnt2"]),
+                      "open-path contribution table deviates from the definition (inside clip for Intersection; outside subject and clip "
+                      "for Union; outside clip for Difference/Xor) on %d reachable cell(s); first: %s" % (len(bad), cell), f.where,
+                      detail=bad[:20], cfg=cfg)
+    return n
+
+
+def own_boundary(fill, wc):
+    return filled(fill, wc) != filled(fill, wc - sgn(wc))
+
+
+def table_open_toggle(db, chk, cfg, rule="T.open-toggle"):
+    """The open-path prefix of IntersectEdges: does an open edge crossing a closed edge toggle its contribution?"""
+    from ..astq import if_parts
+    f = db.one("ClipperBase::IntersectEdges")
+    first = kids(f.body)[0]
+    if first.get("kind") != "IfStmt" or "has_open_paths_" not in canon(if_parts(first)[0]):
+        raise AnalysisBroken("IntersectEdges no longer starts with the open-path branch `if (has_open_paths_ && ...)`")
+    cond, then, els = if_parts(first)
+    stmts = kids(then)
+    # the prefix ends where the contribution is toggled: the first statement that calls AddOutPt / StartOpenPath
+    cut = None
+    for i, s in enumerate(stmts):
+        if any(x.get("kind") in ("CXXMemberCallExpr", "CallExpr") and db.callee(x)[0] in ("AddOutPt", "StartOpenPath") for x in walk(s)):
+            cut = i
+            break
+    if cut is None:
+        raise AnalysisBroken("toggle site (AddOutPt / StartOpenPath) not found in the open-path branch of IntersectEdges")
+    prefix = stmts[:cut]
+    n = 0
+    bad = []
+    for which in ("e1", "e2"):       # which of the two edges is the open one
+        o, c = which, ("e2" if which == "e1" else "e1")
+        for fill in FILL:
+            for ct in CLIP[1:]:
+                for pt in PTYPE:
+                    for wc in REPS:
+                        for hot in (False, True):
+                            log = []
+                            env = {
+                                "has_open_paths_": True,
+                                "fillrule_": enum_index(db, "FillRule", fill), "cliptype_": enum_index(db, "ClipType", ct),
+                                o + ".local_min->is_open": True, c + ".local_min->is_open": False,
+                                c + ".local_min->polytype": enum_index(db, "PathType", pt),
+                                o + ".local_min->polytype": enum_index(db, "PathType", "Subject"),
+                                c + ".wind_cnt": SymVal(wc, "wind_cnt", log),
+                                c + ".outrec": (1 if hot else None),
+                                c + ".join_with": enum_index(db, "JoinWith", "NoJoin"),
+                                o + ".join_with": enum_index(db, "JoinWith", "NoJoin"),
+                            }
+                            it = Interp(db, env, log)
+                            try:
+                                if not it._truth(it.ev(cond), cond):
+                                    raise AnalysisBroken("open-path branch condition is false for an open/closed pair")
+                                toggled = True
+                                from ..evalx import _Return
+                                try:
+                                    for s in prefix:
+                                        it.exec(s)
+                                except _Return:
+                                    toggled = False
+                            except Unsupported as e:
+                                raise AnalysisBroken("cannot interpret the open-path prefix of IntersectEdges: %s" % e)
+                            check_uniform(log, {"wind_cnt": BOUNDS})
+                            # reachability: wind_cnt != 0 (EvenOdd: +-1); a hot closed edge is an own-boundary
+                            if wc == 0 or (fill == "EvenOdd" and wc not in (1, -1)):
+                                continue
+                            if hot and not own_boundary(fill, wc):
+                                continue
+                            n += 1
+                            if ct == "Union":
+                                want = hot
+                            else:
+                                want = (pt == "Clip") and own_boundary(fill, wc)
+                            cell = {"open_edge": o, "fill": fill, "clip": ct, "closed_edge_type": pt, "wind_cnt": wc, "hot": hot,
+                                    "code_toggles": toggled, "oracle": want}
+                            chk.instance(rule, cell if n % 83 == 1 else None, ok=(toggled == want))
+                            if toggled != want:
+                                bad.append(cell)
+    for cell in bad[:1]:
+        chk.violation(rule, f.qual, "%s/%s/%s/wc=%d/hot=%s" % (cell["clip"], cell["fill"], cell["closed_edge_type"], cell["wind_cnt"], cell["hot"]),
+                      "the open-path toggle condition deviates from the definition (non-Union: the closed edge is a clip edge bounding the "
+                      "clip-filled region; Union: it is on the closed solution's boundary) on %d reachable cell(s); first: %s" % (len(bad), cell),
+                      f.where, detail=bad[:20], cfg=cfg)
+    return n
+
+
+# ---------------------------------------------------------------------------
+# symmetries of the closed table (C13)
+# ---------------------------------------------------------------------------
+
+def _closed_value(db, f, fill, ct, pt, wc, wc2):
+    log = []
+    env = {"fillrule_": enum_index(db, "FillRule", fill), "cliptype_": enum_index(db, "ClipType", ct),
+           "e.wind_cnt": SymVal(wc, "wind_cnt", log), "e.wind_cnt2": SymVal(wc2, "wind_cnt2", log),
+           "e.local_min->polytype": enum_index(db, "PathType", pt)}
+    v = Interp(db, env, log).run_function(f)
+    check_uniform(log, {"wind_cnt": BOUNDS, "wind_cnt2": BOUNDS})
+    return v
+
+
+def table_symmetry(db, chk, cfg, rule="T.symmetry"):
+    f = db.one("ClipperBase::IsContributingClosed")
+    n = 0
+    bad = []
+    mirror = {"Positive": "Negative", "Negative": "Positive", "EvenOdd": "EvenOdd", "NonZero": "NonZero"}
+    for fill in FILL:
+        for ct in CLIP[1:]:
+            for pt in PTYPE:
+                for wc in REPS:
+                    for wc2 in REPS:
+                        if not reachable_closed(fill, wc, wc2):
+                            continue
+                        v = _closed_value(db, f, fill, ct, pt, wc, wc2)
+                        # (a) reversing every path negates all winding numbers: Positive <-> Negative, EvenOdd/NonZero unchanged
+                        if fill != "EvenOdd":
+                            v2 = _closed_value(db, f, mirror[fill], ct, pt, -wc, -wc2)
+                            n += 1
+                            ok = (v == v2)
+                            chk.instance(rule, {"symmetry": "reversal", "fill": fill, "clip": ct, "ptype": pt, "wc": wc, "wc2": wc2}
+                                         if n % 151 == 1 else None, ok=ok)
+                            if not ok:
+                                bad.append(("reversal", fill, ct, pt, wc, wc2, v, v2))
+                        # (b) swapping subject and clip leaves Intersection, Union and Xor unchanged
+                        if ct != "Difference":
+                            other = "Clip" if pt == "Subject" else "Subject"
+                            v3 = _closed_value(db, f, fill, ct, other, wc, wc2)
+                            n += 1
+                            ok = (v == v3)
+                            chk.instance(rule, None, ok=ok)
+                            if not ok:
+                                bad.append(("swap", fill, ct, pt, wc, wc2, v, v3))
+    for b in bad[:1]:
+        chk.violation(rule, f.qual, "%s/%s/%s/%s/wc=%d/wc2=%d" % b[:6],
+                      "contribution table is not symmetric under %s (%d cells); first: fill=%s clip=%s type=%s wc=%d wc2=%d gives %s vs %s"
+                      % ((b[0], len(bad)) + b[1:]), f.where, cfg=cfg)
+    return n
+
+
+# ---------------------------------------------------------------------------
+# comparators: strict weak orders (C13 determinism, C10 UB-freedom of std::sort)
+# ---------------------------------------------------------------------------
+
+def _strict_weak(elems, less, name):
+    """Returns a description of the first violated axiom, or None."""
+    for a in elems:
+        if less(a, a):
+            return "irreflexivity fails for %s" % (a,)
+    for a in elems:
+        for b in elems:
+            if less(a, b) and less(b, a):
+                return "asymmetry fails for %s, %s" % (a, b)
+    for a in elems:
+        for b in elems:
+            for c in elems:
+                if less(a, b) and less(b, c) and not less(a, c):
+                    return "transitivity fails for %s < %s < %s" % (a, b, c)
+                ab = (not less(a, b)) and (not less(b, a))
+                bc = (not less(b, c)) and (not less(c, b))
+                if ab and bc and (less(a, c) or less(c, a)):
+                    return "incomparability is not transitive for %s ~ %s ~ %s" % (a, b, c)
+    return None
+
+
+def comparators(db, chk, cfg, rule="T.comparator"):
+    n = 0
+    dom = [(y, x) for y in (0, 1, 2) for x in (0, 1, 2)]
+    specs = []
+    # LocMinSorter::operator()(locMin1, locMin2): keys vertex->pt.y, vertex->pt.x
+    f = db.one("LocMinSorter::operator()")
+    p1, p2 = f.params[0]["name"], f.params[1]["name"]
+
+    def less_lm(a, b, f=f, p1=p1, p2=p2):
+        log = []
+        env = {p1 + "->vertex->pt.y": SymVal(a[0], "y1", log, group="order-y"), p1 + "->vertex->pt.x": SymVal(a[1], "x1", log, group="order-x"),
+               p2 + "->vertex->pt.y": SymVal(b[0], "y2", log, group="order-y"), p2 + "->vertex->pt.x": SymVal(b[1], "x2", log, group="order-x")}
+        r = Interp(db, env, log).run_function(f)
+        check_uniform(log, {})
+        return bool(r)
+    specs.append(("LocMinSorter", f, dom, less_lm))
+    # IntersectListSort(a, b): keys pt.y, pt.x
+    f2 = db.one("IntersectListSort")
+    q1, q2 = f2.params[0]["name"], f2.params[1]["name"]
+
+    def less_il(a, b, f=f2, p1=q1, p2=q2):
+        log = []
+        env = {p1 + ".pt.y": SymVal(a[0], "y1", log, group="order-y"), p1 + ".pt.x": SymVal(a[1], "x1", log, group="order-x"),
+               p2 + ".pt.y": SymVal(b[0], "y2", log, group="order-y"), p2 + ".pt.x": SymVal(b[1], "x2", log, group="order-x")}
+        r = Interp(db, env, log).run_function(f)
+        check_uniform(log, {})
+        return bool(r)
+    specs.append(("IntersectListSort", f2, dom, less_il))
+    # HorzSegSorter::operator()(hs1, hs2): keys right_op (null?), left_op->pt.x
+    f3 = db.one("HorzSegSorter::operator()")
+    h1, h2 = f3.params[0]["name"], f3.params[1]["name"]
+    dom3 = [(r, x) for r in (None, 1) for x in (0, 1, 2)]
+
+    def less_hs(a, b, f=f3, p1=h1, p2=h2):
+        log = []
+        env = {p1 + ".right_op": a[0], p2 + ".right_op": b[0],
+               p1 + ".left_op->pt.x": SymVal(a[1], "x1", log, group="order-x"), p2 + ".left_op->pt.x": SymVal(b[1], "x2", log, group="order-x")}
+        r = Interp(db, env, log).run_function(f)
+        check_uniform(log, {})
+        return bool(r)
+    specs.append(("HorzSegSorter", f3, dom3, less_hs))
+    for name, fn, d, less in specs:
+        try:
+            err = _strict_weak(d, less, name)
+        except Unsupported as e:
+            raise AnalysisBroken("cannot interpret comparator %s: %s" % (name, e))
+        n += len(d) ** 3
+        chk.instance(rule, {"comparator": name, "elements": len(d), "triples_checked": len(d) ** 3, "cfg": cfg}, n=len(d) ** 3, ok=err is None)
+        if err:
+            chk.violation(rule, fn.qual, name, "comparator handed to std::sort / std::stable_sort is not a strict weak ordering: %s "
+                          "(undefined behaviour in the sort, and an order that depends on the input permutation)" % err, fn.where, cfg=cfg)
+    return n
+
+
+# ---------------------------------------------------------------------------
+# rectangle predicates behind RectClip's shortcuts (C08)
+# ---------------------------------------------------------------------------
+
+def rect_shortcuts(db, chk, cfg, rule="T.rect"):
+    from ..astq import if_parts
+    contains = db.one("Rect<long>::Contains", inst="Rect<long> &")
+    inter = db.one("Rect<long>::Intersects")
+    empty = db.one("Rect<long>::IsEmpty")
+    pc = contains.params[0]["name"]
+    pi = inter.params[0]["name"]
+    vals = (0, 1, 2, 3)
+    n = 0
+    bad = []
+    for l in vals:
+        for r in vals:
+            if not l < r:
+                continue                      # RectClip64::Execute returns early when rect_.IsEmpty()
+            for bl in vals:
+                for br in vals:
+                    if br < bl:
+                        continue              # bounds of a path: left <= right
+                    for t in vals:
+                        for b in vals:
+                            if not t < b:
+                                continue
+                            for bt in vals:
+                                for bb in vals:
+                                    if bb < bt:
+                                        continue
+                                    log = []
+
+                                    def S(v, nm, g):
+                                        return SymVal(v, nm, log, group=g)
+                                    this = {"left": S(l, "left", "order-x"), "right": S(r, "right", "order-x"),
+                                            "top": S(t, "top", "order-y"), "bottom": S(b, "bottom", "order-y")}
+                                    env_c = dict(this)
+                                    env_c.update({pc + ".left": S(bl, "b.left", "order-x"), pc + ".right": S(br, "b.right", "order-x"),
+                                                  pc + ".top": S(bt, "b.top", "order-y"), pc + ".bottom": S(bb, "b.bottom", "order-y")})
+                                    env_i = dict(this)
+                                    env_i.update({pi + ".left": S(bl, "b.left", "order-x"), pi + ".right": S(br, "b.right", "order-x"),
+                                                  pi + ".top": S(bt, "b.top", "order-y"), pi + ".bottom": S(bb, "b.bottom", "order-y")})
+                                    try:
+                                        gc = bool(Interp(db, env_c, log).run_function(contains))
+                                        gi = bool(Interp(db, env_i, log).run_function(inter))
+                                    except Unsupported as e:
+                                        raise AnalysisBroken("cannot interpret Rect predicates: %s" % e)
+                                    check_uniform(log, {})
+                                    want_c = bl >= l and br <= r and bt >= t and bb <= b
+                                    want_i = not (br < l or bl > r or bb < t or bt > b)
+                                    n += 1
+                                    ok = gc == want_c and gi == want_i
+                                    chk.instance(rule, {"rect": (l, t, r, b), "bounds": (bl, bt, br, bb), "Contains": gc, "Intersects": gi}
+                                                 if n % 997 == 1 else None, ok=ok)
+                                    if not ok:
+                                        bad.append(((l, t, r, b), (bl, bt, br, bb), gc, want_c, gi, want_i))
+    for b_ in bad[:1]:
+        chk.violation(rule, "Rect<long>::Contains/Intersects", "rect=%s/bounds=%s" % (b_[0], b_[1]),
+                      "bounding-box predicate behind RectClip's shortcuts is wrong on %d ordering cell(s); first: rect(l,t,r,b)=%s bounds=%s: "
+                      "Contains=%s (closed inclusion: %s), Intersects=%s (closed boxes meet: %s)" % ((len(bad),) + b_), contains.where, cfg=cfg)
+    # IsEmpty: zero or negative extent
+    for l in (0, 1, 2):
+        for r in (0, 1, 2):
+            for t in (0, 1, 2):
+                for b in (0, 1, 2):
+                    log = []
+                    env = {"left": SymVal(l, "left", log, group="order-x"), "right": SymVal(r, "right", log, group="order-x"),
+                           "top": SymVal(t, "top", log, group="order-y"), "bottom": SymVal(b, "bottom", log, group="order-y")}
+                    g = bool(Interp(db, env, log).run_function(empty))
+                    check_uniform(log, {})
+                    n += 1
+                    want = (r <= l) or (b <= t)
+                    chk.instance(rule, None, ok=(g == want))
+                    if g != want:
+                        chk.violation(rule, empty.qual, "IsEmpty", "Rect::IsEmpty() is %s for (l,t,r,b)=%s, zero-or-negative extent is %s"
+                                      % (g, (l, t, r, b), want), empty.where, cfg=cfg)
+    # how RectClip64::Execute uses them
+    f = db.one("RectClip64::Execute")
+    loops = [x for x in kids(f.body) if x.get("kind") == "CXXForRangeStmt"]
+    if len(loops) != 1:
+        raise AnalysisBroken("path loop of RectClip64::Execute not found")
+    body = kids(loops[0])[-1]
+    lv = kids(kids(loops[0])[-2])[0].get("name")
+    sts = kids(body)
+    problems = []
+    outside = inside = None
+    for s in sts:
+        if s.get("kind") == "IfStmt":
+            cond, then, els = if_parts(s)
+            cs = canon(cond)
+            if "Intersects(path_bounds_)" in cs and cs.startswith("(!"):
+                outside = (s, then, els)
+            elif "Contains(path_bounds_)" in cs:
+                inside = (s, then, els)
+            if outside and els is not None and els.get("kind") == "IfStmt" and inside is None:
+                c2, t2, e2 = if_parts(els)
+                if "Contains(path_bounds_)" in canon(c2):
+                    inside = (els, t2, e2)
+        if any(x.get("kind") == "CXXMemberCallExpr" and db.callee(x)[0] == "ExecuteInternal" for x in walk(s)):
+            break
+    if outside is None:
+        problems.append("no `if (!rect_.Intersects(path_bounds_)) continue;` shortcut before ExecuteInternal")
+    else:
+        t = canon(outside[1])
+        if "emplace_back" in t or "push_back" in t or "continue" not in t:
+            problems.append("the 'entirely outside' branch is not a bare `continue`: %s" % t[:60])
+    if inside is None:
+        problems.append("no `if (rect_.Contains(path_bounds_))` shortcut before ExecuteInternal")
+    else:
+        t = canon(inside[1])
+        if not ("result.emplace_back(%s)" % lv in t or "result.push_back(%s)" % lv in t) or "continue" not in t:
+            problems.append("the 'entirely inside' branch does not return the input path unchanged: %s" % t[:80])
+    bounds_ok = any("(path_bounds_ = GetBounds(%s))" % lv in canon(s) for s in sts)
+    if not bounds_ok:
+        problems.append("path_bounds_ is not GetBounds(<the current path>)")
+    n += 1
+    chk.instance(rule, {"function": f.qual, "shortcuts": "outside -> continue; inside -> result.emplace_back(path); continue", "cfg": cfg}, ok=not problems)
+    if problems:
+        chk.violation(rule, f.qual, "shortcuts", "; ".join(problems), f.where, cfg=cfg)
+    return n
+
+
+# ---------------------------------------------------------------------------
+# CleanCollinear's removal condition (C03)
+# ---------------------------------------------------------------------------
+
+def clean_collinear_condition(db, chk, cfg, rule="T.removal"):
+    from ..astq import if_parts
+    f = db.one("ClipperBase::CleanCollinear")
+    conds = []
+    for x in walk(f.body):
+        if x.get("kind") == "IfStmt":
+            cond, then, els = if_parts(x)
+            if "IsCollinear(" in canon(cond) and any(y.get("kind") == "CallExpr" and db.callee(y)[0] == "DisposeOutPt" for y in walk(then)):
+                conds.append((x, cond))
+    if len(conds) != 1:
+        raise AnalysisBroken("removal condition of CleanCollinear not found (%d candidates)" % len(conds))
+    node, cond = conds[0]
+    n = 0
+    bad = []
+    for collinear in (False, True):
+        for dup_prev in (False, True):
+            for dup_next in (False, True):
+                for preserve in (False, True):
+                    for dot in (-1, 0, 1):
+                        log = []
+
+                        def hook(name, args, nd):
+                            if name == "IsCollinear":
+                                return collinear
+                            if name == "DotProduct":
+                                return SymVal(dot, "dot", log, group="finite")
+                            if name == "operator==" or name == "operator!=":
+                                s = canon(nd)
+                                if "prev" in s:
+                                    v = dup_prev
+                                elif "next" in s:
+                                    v = dup_next
+                                else:
+                                    return NotImplemented
+                                return v if name == "operator==" else (not v)
+                            return NotImplemented
+                        env = {"preserve_collinear_": preserve}
+                        it = Interp(db, env, log, call_hook=hook)
+                        # make point operands evaluable: they are opaque tokens
+                        try:
+                            got = bool(_eval_with_opaque(it, cond))
+                        except Unsupported as e:
+                            raise AnalysisBroken("cannot interpret CleanCollinear's removal condition: %s" % e)
+                        want = collinear and (dup_prev or dup_next or (not preserve) or dot < 0)
+                        n += 1
+                        chk.instance(rule, {"collinear": collinear, "dup_prev": dup_prev, "dup_next": dup_next, "preserve": preserve,
+                                            "dot_sign": dot, "remove": got} if n % 17 == 1 else None, ok=(got == want))
+                        if got != want:
+                            bad.append((collinear, dup_prev, dup_next, preserve, dot, got, want))
+    for b in bad[:1]:
+        chk.violation(rule, f.qual, "coll=%s/dupP=%s/dupN=%s/preserve=%s/dot=%d" % b[:5],
+                      "CleanCollinear removes a vertex when %s but the rule is: collinear and (duplicate of a neighbour or not PreserveCollinear "
+                      "or a 180-degree reversal); %d cell(s) differ" % ("it should not" if b[5] else "it should and does not", len(bad)), where(node), cfg=cfg)
+    return n
+
+
+def _eval_with_opaque(it, cond):
+    """Evaluate a condition whose leaves are calls on opaque point objects (handled by the hook)."""
+    e = strip(cond)
+    k = e.get("kind")
+    ks = kids(e)
+    if k == "BinaryOperator" and e.get("opcode") in ("&&", "||"):
+        a = _eval_with_opaque(it, ks[0])
+        if e.get("opcode") == "&&":
+            return bool(a) and bool(_eval_with_opaque(it, ks[1]))
+        return bool(a) or bool(_eval_with_opaque(it, ks[1]))
+    if k == "UnaryOperator" and e.get("opcode") == "!":
+        return not _eval_with_opaque(it, ks[0])
+    if k in ("CallExpr", "CXXOperatorCallExpr", "CXXMemberCallExpr"):
+        name = it.db.callee(e)[0]
+        r = it.call_hook(name, [], e)
+        if r is not NotImplemented:
+            return r
+    if k == "BinaryOperator" and e.get("opcode") in ("<", ">", "<=", ">=", "==", "!="):
+        a = _eval_leaf(it, ks[0])
+        b = _eval_leaf(it, ks[1])
+        return it._cmp(e.get("opcode"), a, b, e)
+    return it._truth(it.ev(e), e)
+
+
+def _eval_leaf(it, e):
+    e0 = strip(e)
+    if e0.get("kind") in ("CallExpr", "CXXOperatorCallExpr"):
+        r = it.call_hook(it.db.callee(e0)[0], [], e0)
+        if r is not NotImplemented:
+            return r
+    return it.ev(e0)
+
+
+# ---------------------------------------------------------------------------
+# exact predicates (C18)
+# ---------------------------------------------------------------------------
+
+PRED_FUNCS = ["CrossProductSign", "ProductsAreEqual", "IsCollinear", "TriSign", "Multiply"]
+
+
+def predicates_integer_only(db, chk, cfg, rule="P.integer-only"):
+    """No expression of floating type inside the exact predicates; products only of widened (__int128) or 64-bit unsigned operands."""
+    n = 0
+    for q in PRED_FUNCS:
+        fs = db.find(q)
+        for f in fs:
+            fl = [x for x in walk(f.body) if re_float.search(dqt(x) or "")]
+            muls = [x for x in walk(f.body) if x.get("kind") == "BinaryOperator" and x.get("opcode") == "*"]
+            narrow = []
+            for m in muls:
+                t = dqt(m)
+                if t in ("__int128", "__int128_t", "unsigned __int128", "unsigned long", "uint64_t", "int"):
+                    continue
+                narrow.append((t, m))
+            n += 1
+            ok = not fl and not narrow
+            chk.instance(rule, {"function": f.qual, "sig": f.sig[:50], "products": len(muls), "cfg": cfg}, ok=ok)
+            if fl:
+                chk.violation(rule, f.qual, "floating-point", "exact predicate contains an expression of floating type (%s) at %s: the answer is "
+                              "no longer exact for all 64-bit inputs" % (dqt(fl[0]), where(fl[0])), where(fl[0]), cfg=cfg)
+            if narrow:
+                chk.violation(rule, f.qual, "narrow-product", "product computed in type %s at %s: 64x64-bit products must be formed in 128 bits "
+                              "(or by the portable Multiply)" % (narrow[0][0], where(narrow[0][1])), where(narrow[0][1]), cfg=cfg)
+    return n
+
+
+import re as _re
+re_float = _re.compile(r'\b(double|float|long double)\b')
+
+
+def portable_sign_logic(db, chk, cfg, rule="P.portable-sign"):
+    """Tails of CrossProductSign / ProductsAreEqual in the portable configuration."""
+    n = 0
+    # consistent cells: sign == 0  <=>  magnitude == 0
+    mags = [(0, 0), (0, 1), (1, 0), (1, 1), (0, 2), (2, 0), (1, 2), (2, 1)]     # (hi, lo) of a 128-bit magnitude
+
+    def cells():
+        for sa in (-1, 0, 1):
+            for sc in (-1, 0, 1):
+                for ma in mags:
+                    for mc in mags:
+                        if (sa == 0) != (ma == (0, 0)) or (sc == 0) != (mc == (0, 0)):
+                            continue
+                        yield sa, sc, ma, mc
+
+    f = db.one("CrossProductSign", inst="Point<long>")
+    stmts = kids(f.body)
+    tail = [s for s in stmts if s.get("kind") != "DeclStmt"]
+    if not tail or "Multiply" not in canon(f.body):
+        raise AnalysisBroken("portable branch of CrossProductSign not present in configuration %s" % cfg)
+    bad = []
+    for sa, sc, ma, mc in cells():
+        log = []
+        env = {"sign_ab": SymVal(sa, "sign_ab", log, group="tri"), "sign_cd": SymVal(sc, "sign_cd", log, group="tri"),
+               "ab.hi": SymVal(ma[0], "ab.hi", log, group="order-hi"), "cd.hi": SymVal(mc[0], "cd.hi", log, group="order-hi"),
+               "ab.lo": SymVal(ma[1], "ab.lo", log, group="order-lo"), "cd.lo": SymVal(mc[1], "cd.lo", log, group="order-lo")}
+        it = Interp(db, env, log)
+        from ..evalx import _Return
+        got = None
+        try:
+            for s in tail:
+                it.exec(s)
+        except _Return as r:
+            got = r.v
+        except Unsupported as e:
+            raise AnalysisBroken("cannot interpret the portable tail of CrossProductSign: %s" % e)
+        got = got.v if isinstance(got, SymVal) else got
+        check_uniform(log, {})
+        va = sa * (ma[0] * 4 + ma[1])
+        vc = sc * (mc[0] * 4 + mc[1])
+        want = (va > vc) - (va < vc)
+        n += 1
+        chk.instance(rule, {"sign_ab": sa, "sign_cd": sc, "|ab|(hi,lo)": ma, "|cd|(hi,lo)": mc, "result": got} if n % 41 == 1 else None, ok=(got == want))
+        if got != want:
+            bad.append((sa, sc, ma, mc, got, want))
+    for b in bad[:1]:
+        chk.violation(rule, f.qual, "sab=%d/scd=%d/ab=%s/cd=%s" % b[:4],
+                      "portable CrossProductSign returns %s where sign(ab - cd) is %s (sign_ab=%d, sign_cd=%d, |ab|=%s, |cd|=%s as (hi,lo)); %d cell(s) differ"
+                      % (b[4], b[5], b[0], b[1], b[2], b[3], len(bad)), f.where, cfg=cfg)
+    g = db.one("ProductsAreEqual")
+    gt = [s for s in kids(g.body) if s.get("kind") != "DeclStmt"]
+    bad = []
+    for sa, sc, ma, mc in cells():
+        log = []
+        env = {"sign_ab": SymVal(sa, "sign_ab", log, group="tri"), "sign_cd": SymVal(sc, "sign_cd", log, group="tri"),
+               "ab.hi": SymVal(ma[0], "ab.hi", log, group="order-hi"), "cd.hi": SymVal(mc[0], "cd.hi", log, group="order-hi"),
+               "ab.lo": SymVal(ma[1], "ab.lo", log, group="order-lo"), "cd.lo": SymVal(mc[1], "cd.lo", log, group="order-lo")}
+        it = Interp(db, env, log)
+        from ..evalx import _Return
+        got = None
+        try:
+            for s in gt:
+                it.exec(s)
+        except _Return as r:
+            got = bool(r.v)
+        except Unsupported as e:
+            raise AnalysisBroken("cannot interpret the portable tail of ProductsAreEqual: %s" % e)
+        want = (sa == sc) and (ma == mc)
+        n += 1
+        chk.instance(rule, None, ok=(got == want))
+        if got != want:
+            bad.append((sa, sc, ma, mc, got, want))
+    for b in bad[:1]:
+        chk.violation(rule, g.qual, "sab=%d/scd=%d/ab=%s/cd=%s" % b[:4],
+                      "portable ProductsAreEqual returns %s where a*b == c*d is %s; %d cell(s) differ" % (b[4], b[5], len(bad)), g.where, cfg=cfg)
+    # TriSign
+    t = db.one("TriSign")
+    for v in (-3, -2, -1, 0, 1, 2, 3):
+        log = []
+        r = Interp(db, {t.params[0]["name"]: SymVal(v, "x", log)}, log).run_function(t)
+        check_uniform(log, {"x": BOUNDS})
+        n += 1
+        ok = r == sgn(v)
+        chk.instance(rule, None, ok=ok)
+        if not ok:
+            chk.violation(rule, t.qual, "x=%d" % v, "TriSign(%d) is %s" % (v, r), t.where, cfg=cfg)
+    return n
+
+
+def multiply_no_wrap(db, chk, cfg, rule="P.multiply-no-wrap"):
+    """Interval abstract interpretation of Multiply: no 64-bit intermediate can wrap around."""
+    f = db.one("Multiply")
+    M64 = (1 << 64) - 1
+    env = {}
+    for p in f.params:
+        env[p["name"]] = (0, M64)
+    lambdas = {}
+    n = 0
+    problems = []
+
+    def iv(e):
+        e = strip(e)
+        k = e.get("kind")
+        ks = kids(e)
+        if k == "IntegerLiteral":
+            v = int(e["value"])
+            return (v, v)
+        if k == "DeclRefExpr":
+            nm = e["referencedDecl"]["name"]
+            if nm in env:
+                return env[nm]
+            raise AnalysisBroken("Multiply: unknown variable %s" % nm)
+        if k == "BinaryOperator":
+            op = e.get("opcode")
+            a, b = iv(ks[0]), iv(ks[1])
+            if op == "&":
+                return (0, min(a[1], b[1]))
+            if op == ">>":
+                return (a[0] >> b[1], a[1] >> b[0])
+            if op == "<<":
+                r = (a[0] << b[0], a[1] << b[1])
+            elif op == "*":
+                r = (a[0] * b[0], a[1] * b[1])
+            elif op == "+":
+                r = (a[0] + b[0], a[1] + b[1])
+            elif op == "|":
+                # disjoint bit ranges in this code; the sound bound is the sum
+                r = (max(a[0], b[0]), a[1] + b[1]) if (a[1] & b[1]) else (max(a[0], b[0]), a[1] | b[1])
+            else:
+                raise AnalysisBroken("Multiply: unsupported operator %s" % op)
+            nonlocal n
+            n += 1
+            ok = r[1] <= M64
+            chk.instance(rule, {"expr": canon(e)[:60], "max": hex(r[1]), "fits_in_64_bits": ok, "cfg": cfg}, ok=ok)
+            if not ok:
+                problems.append((canon(e), r[1], e))
+            return (r[0], min(r[1], M64))
+        if k == "CXXOperatorCallExpr":       # call of the lambdas lo / hi
+            callee_obj = strip(ks[1])
+            nm = callee_obj.get("referencedDecl", {}).get("name")
+            if nm in lambdas:
+                pn, body = lambdas[nm]
+                saved = env.get(pn)
+                env[pn] = iv(ks[2])
+                r = iv(body)
+                if saved is None:
+                    env.pop(pn, None)
+                else:
+                    env[pn] = saved
+                return r
+            raise AnalysisBroken("Multiply: unknown callable %s" % nm)
+        raise AnalysisBroken("Multiply: unsupported expression %s" % k)
+
+    for s in kids(f.body):
+        if s.get("kind") == "DeclStmt":
+            for d in kids(s):
+                if d.get("kind") != "VarDecl":
+                    continue
+                init = [c for c in kids(d) if c.get("kind")]
+                lam = [x for x in walk(d) if x.get("kind") == "LambdaExpr"]
+                if lam:
+                    meth = [x for x in walk(lam[0]) if x.get("kind") == "CXXMethodDecl" and x.get("name") == "operator()"]
+                    if not meth:
+                        raise AnalysisBroken("Multiply: lambda without operator()")
+                    prm = [c for c in kids(meth[0]) if c.get("kind") == "ParmVarDecl"]
+                    body = [c for c in kids(meth[0]) if c.get("kind") == "CompoundStmt"][0]
+                    ret = [x for x in walk(body) if x.get("kind") == "ReturnStmt"][0]
+                    lambdas[d["name"]] = (prm[0]["name"], kids(ret)[0])
+                elif init:
+                    env[d["name"]] = iv(init[-1])
+        elif s.get("kind") == "ReturnStmt":
+            for x in kids(s):
+                for leaf in walk(x):
+                    pass
+    if n < 8:
+        raise AnalysisBroken("Multiply: only %d arithmetic intermediates recognised" % n)
+    for txt, mx, node in problems[:1]:
+        chk.violation(rule, f.qual, txt[:40], "intermediate %s can reach %s > 2^64-1: the partial sum wraps around and the 128-bit product is wrong"
+                      % (txt, hex(mx)), where(node), cfg=cfg)
+    return n
